@@ -14,7 +14,21 @@ loaded, so that all engines see ONE spelling of an attribute access:
                                          does not rebind n and has no break / continue / else
 
 The rewriting preserves the meaning (attribute names that are identifiers; an instance without
-__slots__ or properties of that name, which the library does not use) and the line numbers."""
+__slots__ or properties of that name, which the library does not use) and the line numbers.
+
+A second pass (`Inert`) removes what does not take part in the results the properties speak about,
+so that ordinary maintenance of the library does not put a function outside the interpreters:
+
+    x: T = e                          ->  x = e            (x: T alone: dropped)
+    assert c, msg                     ->  dropped           (python -O drops them too; a failing assert is
+                                                             an exception, not a wrong result)
+    log.debug(...) / logging.info(...) / warnings.warn(...) / print(...)   as statements, when their
+        arguments call nothing but str/repr/len/format/type/float/int/round -> dropped
+        (`log` = a module-level name bound to logging.getLogger(...))
+    with np.errstate(...) / warnings.catch_warnings() / contextlib.nullcontext(): BODY   ->  BODY
+    try: BODY  except ...: <inert statements> ; raise        (no else / finally)          ->  BODY
+    if <test with isinstance / callable / issubclass>: raise ...    (no else)             ->  dropped
+        (argument-type validation: the properties quantify over inputs of the documented types)"""
 import ast
 import copy
 
@@ -137,8 +151,184 @@ class Desugar(ast.NodeTransformer):
         return node
 
 
+_PURE_CALLS = {"str", "repr", "len", "format", "type", "float", "int", "round", "id", "abs", "min", "max", "sum", "tuple", "list"}
+_LOG_METHODS = {"debug", "info", "warning", "warn", "error", "exception", "critical", "log"}
+_INERT_CONTEXTS = {"errstate", "catch_warnings", "nullcontext", "printoptions"}
+
+
+def _dotted(n):
+    if isinstance(n, ast.Name):
+        return n.id
+    if isinstance(n, ast.Attribute):
+        b = _dotted(n.value)
+        return None if b is None else b + "." + n.attr
+    return None
+
+
+class Inert(ast.NodeTransformer):
+    def __init__(self, loggers):
+        self.loggers = set(loggers)
+        self.count = 0
+
+    def _args_pure(self, call):
+        for a in list(call.args) + [k.value for k in call.keywords]:
+            for n in ast.walk(a):
+                if isinstance(n, ast.Call):
+                    d = _dotted(n.func)
+                    if d in _PURE_CALLS:
+                        continue
+                    if isinstance(n.func, ast.Attribute) and n.func.attr in ("format", "join") and isinstance(n.func.value, ast.Constant):
+                        continue
+                    return False
+                if isinstance(n, (ast.NamedExpr, ast.Await, ast.Yield, ast.YieldFrom)):
+                    return False
+        return True
+
+    def _inert_stmt(self, st):
+        if isinstance(st, ast.Pass):
+            return True
+        if isinstance(st, ast.Expr) and isinstance(st.value, ast.Constant):
+            return True
+        if isinstance(st, ast.Expr) and isinstance(st.value, ast.Call):
+            c = st.value
+            d = _dotted(c.func)
+            if d is None:
+                return False
+            head, _, tail = d.rpartition(".")
+            is_log = (head in self.loggers or head == "logging") and tail in _LOG_METHODS
+            is_warn = d in ("warnings.warn", "warn") or d == "print"
+            return (is_log or is_warn) and self._args_pure(c)
+        return False
+
+    def _block(self, stmts):
+        out = []
+        for st in stmts:
+            r = self.visit(st)
+            if r is None:
+                continue
+            out.extend(r if isinstance(r, list) else [r])
+        return out
+
+    def generic_visit(self, node):
+        for field in ("body", "orelse", "finalbody"):
+            b = getattr(node, field, None)
+            if isinstance(b, list) and b and isinstance(b[0], ast.stmt):
+                nb = self._block(b)
+                if not nb and field == "body":
+                    nb = [ast.copy_location(ast.Pass(), b[0])]
+                setattr(node, field, nb)
+        if isinstance(node, ast.Try):
+            for h in node.handlers:
+                self.generic_visit(h)
+        return node
+
+    def visit_AnnAssign(self, node):
+        self.count += 1
+        if node.value is None:
+            return None
+        return ast.copy_location(ast.Assign(targets=[node.target], value=node.value), node)
+
+    def visit_Assert(self, node):
+        self.count += 1
+        return None
+
+    def visit_Expr(self, node):
+        if not isinstance(node.value, ast.Constant) and self._inert_stmt(node):
+            d = _dotted(node.value.func)
+            if d != "print":              # print is understood by every engine; keep the statement
+                self.count += 1
+                return None
+        return node
+
+    def visit_With(self, node):
+        self.generic_visit(node)
+        ok = True
+        for it in node.items:
+            c = it.context_expr
+            d = _dotted(c.func) if isinstance(c, ast.Call) else None
+            if d is None or d.rpartition(".")[2] not in _INERT_CONTEXTS or it.optional_vars is not None:
+                ok = False
+        if ok:
+            self.count += 1
+            return node.body
+        return node
+
+    def visit_Try(self, node):
+        self.generic_visit(node)
+        if node.orelse or node.finalbody or not node.handlers:
+            return node
+        for h in node.handlers:
+            if not h.body or not isinstance(h.body[-1], ast.Raise):
+                return node
+            if not all(self._inert_stmt(st) for st in h.body[:-1]):
+                return node
+        self.count += 1
+        return node.body
+
+    def visit_If(self, node):
+        self.generic_visit(node)
+        if not node.orelse and len(node.body) == 1 and isinstance(node.body[0], ast.Raise):
+            calls = [_dotted(n.func) for n in ast.walk(node.test) if isinstance(n, ast.Call)]
+            if calls and all(c in ("isinstance", "callable", "issubclass", "type", "len") for c in calls) and any(c in ("isinstance", "callable", "issubclass") for c in calls):
+                self.count += 1
+                return None
+        return node
+
+
+_NP_BINARY = {"add": ast.Add, "subtract": ast.Sub, "multiply": ast.Mult, "divide": ast.Div, "true_divide": ast.Div, "power": ast.Pow}
+_NP_RENAME = {"absolute": "abs", "fabs": "abs", "fmax": "maximum", "fmin": "minimum", "asanyarray": "asarray"}
+
+
+class NumpyCanon(ast.NodeTransformer):
+    """one spelling per numpy operation (calls without keyword arguments only: out= / where= change the meaning):
+        np.square(x) -> x**2 ; np.power(a, b) -> a**b ; np.add/subtract/multiply/divide(a, b) -> a op b ;
+        np.negative(x) -> -x ; np.absolute / np.fabs -> np.abs ; np.fmax / np.fmin -> np.maximum / np.minimum
+        (equal except for NaN operands, which no property quantifies over) ; math.sqrt -> np.sqrt"""
+    def __init__(self):
+        self.count = 0
+
+    def visit_Call(self, node):
+        self.generic_visit(node)
+        f = node.func
+        if node.keywords or not isinstance(f, ast.Attribute) or not isinstance(f.value, ast.Name):
+            return node
+        if f.value.id in ("np", "numpy"):
+            if f.attr == "square" and len(node.args) == 1:
+                self.count += 1
+                return ast.copy_location(ast.BinOp(left=node.args[0], op=ast.Pow(), right=ast.copy_location(ast.Constant(2), node)), node)
+            if f.attr in _NP_BINARY and len(node.args) == 2:
+                self.count += 1
+                return ast.copy_location(ast.BinOp(left=node.args[0], op=_NP_BINARY[f.attr](), right=node.args[1]), node)
+            if f.attr == "negative" and len(node.args) == 1:
+                self.count += 1
+                return ast.copy_location(ast.UnaryOp(op=ast.USub(), operand=node.args[0]), node)
+            if f.attr in _NP_RENAME:
+                self.count += 1
+                f.attr = _NP_RENAME[f.attr]
+        elif f.value.id == "math" and f.attr in ("sqrt", "fabs") and len(node.args) == 1:
+            self.count += 1
+            node.func = ast.copy_location(ast.Attribute(value=ast.copy_location(ast.Name(id="np", ctx=ast.Load()), node), attr={"sqrt": "sqrt", "fabs": "abs"}[f.attr], ctx=ast.Load()), node)
+        return node
+
+
+def _loggers(tree):
+    out = set()
+    for st in tree.body:
+        if isinstance(st, ast.Assign) and isinstance(st.value, ast.Call):
+            d = _dotted(st.value.func)
+            if d and d.rpartition(".")[2] == "getLogger":
+                for t in st.targets:
+                    if isinstance(t, ast.Name):
+                        out.add(t.id)
+    return out
+
+
 def desugar(tree):
+    i = Inert(_loggers(tree))
+    tree = i.visit(tree)
     d = Desugar()
     tree = d.visit(tree)
+    c = NumpyCanon()
+    tree = c.visit(tree)
     ast.fix_missing_locations(tree)
-    return tree, d.count
+    return tree, d.count + i.count + c.count
